@@ -371,7 +371,7 @@ func scenarioC12(c *hlib.RunCtx) *hlib.Violation {
 			}
 		}
 		truncated := false
-		trunc := t.Biased(4, 3, 4)
+		trunc := t.Biased(5, 3, 4)
 		if decorated >= 2 {
 			trunc = 0 // a cut inside the trailing bytes would leave the first value whole
 		}
@@ -389,6 +389,12 @@ func scenarioC12(c *hlib.RunCtx) *hlib.Violation {
 				body = []byte(`{"LastWeek":"` + pad + `"}`)
 			}
 			wantValid, why = false, "oversize body"
+		case 3, 4: // one byte below the size limit, exactly at it, one byte above it
+			d := t.Draw(3) - 1
+			if pad := maxRequestBytes + d - len(body) - 14; pad >= 0 && len(body) > 1 && body[0] == '{' && body[1] != '}' {
+				body = []byte(`{"LastWeek":"` + strings.Repeat("y", pad) + `",` + string(body[1:]))
+				s.Probe(fmt.Sprintf("body-at-limit%+d", d))
+			}
 		}
 		if truncated {
 			var probe any
@@ -403,6 +409,7 @@ func scenarioC12(c *hlib.RunCtx) *hlib.Violation {
 		}
 		// body stream
 		fr := &faultyReader{data: body, cutAt: -1}
+		declare := t.Bool(1, 2)
 		streamFault := t.Biased(4, 2, 3)
 		if decorated >= 2 && streamFault >= 2 {
 			streamFault = 1
@@ -438,6 +445,9 @@ func scenarioC12(c *hlib.RunCtx) *hlib.Violation {
 		}
 		req := httptest.NewRequest(method, "/upload/"+urlWeek, fr)
 		req.ContentLength = -1
+		if declare && fr.cutAt < 0 {
+			req.ContentLength = int64(len(body)) // a client that declares the length
+		}
 		rec := httptest.NewRecorder()
 		h.ServeHTTP(rec, req)
 		after := listTree(c.Dir)
@@ -577,8 +587,17 @@ func scenarioC11(c *hlib.RunCtx) *hlib.Violation {
 	os.WriteFile(filepath.Join(tele, "mode"), []byte("on 2020-01-01"), 0666)
 	telemetry.Default = telemetry.NewDir(tele)
 	n := 2 + t.Draw(5)
+	// Files often share a week (several programs ending on the same day):
+	// approval is per program, and a report mixes them.
+	lastEndAgo := -1
 	for i := 0; i < n; i++ {
-		mgen.WriteCounterFile(t, s, loc, start.Add(-time.Duration(2+t.Draw(18))*24*time.Hour), 1+t.Draw(7), t.Biased(2, 5, 6))
+		days := 1 + t.Draw(7)
+		ago := 2 + t.Draw(18)
+		if lastEndAgo >= 0 && t.Bool(2, 3) {
+			ago = lastEndAgo + days
+		}
+		lastEndAgo = ago - days
+		mgen.WriteCounterFile(t, s, loc, start.Add(-time.Duration(ago)*24*time.Hour), days, t.Biased(2, 5, 6))
 	}
 	saveReader := rand.Reader
 	rand.Reader = xr{t, []float64{0.25, 0.5, mgen.Dyadic(1<<19 + 1), 0.75}}
